@@ -131,6 +131,13 @@ func (p *Prog) verifyFunction(f *ssa.Function, c *Contract) (res *FnResult) {
 	}
 	pre := ex.specCtx(ex.paramVars(), h0)
 	for _, r := range c.Requires {
+		// a precondition scoped to other properties is not established by the callers verified for this one, so it
+		// is not assumed here either; "@assumed" preconditions are assumed and never checked (reported)
+		if r.OnlyProp == "assumed" {
+			q.note("ASSUMED PRECONDITION of %s: %s", key, r.Text)
+		} else if !q.propActive(r.OnlyProp) {
+			continue
+		}
 		q.assume(pre.evalBool(r))
 	}
 	nPre := len(q.lines)
